@@ -23,6 +23,7 @@ func hessianExtract(v interface{}) (map[string]reflect.Type, map[string]string) 
 
 // emitter runs one round trip per generated value and writes the event.
 type emitter struct {
+	collect  func(label string, v interface{}) // when set, values are collected instead of run
 	w        *shardWriter
 	only     int
 	n        int
@@ -32,6 +33,10 @@ type emitter struct {
 }
 
 func (e *emitter) emit(label string, v interface{}) {
+	if e.collect != nil {
+		e.collect(label, v)
+		return
+	}
 	e.emitEv(label, func() proj.M { return drv.RoundTrip(v) })
 }
 
